@@ -1,5 +1,6 @@
 """C08 - sort keys form the documented total preorder and never fail on well-formed records."""
 import itertools
+import json
 
 from .. import sortcases as SC
 from ..common import exc_name, has_unmodelled
@@ -86,6 +87,35 @@ def compare_impl(a, b, order, contigs):
     return res
 
 
+def eval_pair(ka, a, kb, b, order, cs, la=None, lb=None):
+    """One comparison on the implementation and the oracle's verdict on it (shared by run and replay_case).
+
+    Returns (implementation's answer, where, failures, tag); tag is "contig-missing", "key-failed" or the documented cmp."""
+    la = SC.loc_json(a) if la is None else la
+    lb = SC.loc_json(b) if lb is None else lb
+    i = compare_impl(a, b, order, cs)
+    where = {"order": order, "contigs": cs, "a": la, "b": lb, "kinds": [ka, kb]}
+    fails = []
+    # oracle: well-formed inputs never fail, and agree with the documented order
+    missing_contig = bool(cs) and any(x["chr"] is None or str(x["chr"]) not in cs for x in (la, lb))
+    if missing_contig:
+        if i.get("keyerr") != "ValueError":
+            fails.append(dict(where, what="chromosome missing from the contig list is not reported as ValueError",
+                              kind="contig-missing", got=i))
+        return i, where, fails, "contig-missing"
+    if "keyerr" in i:
+        fails.append(dict(where, what="building a key failed on well-formed coordinates", kind="key-failed", got=i))
+        return i, where, fails, "key-failed"
+    want = expected_cmp(la, lb, order, cs)
+    exp = {"lt": want < 0, "le": want <= 0, "gt": want > 0, "ge": want >= 0, "eq": want == 0, "ne": want != 0, "cmp": want}
+    bad = [k for k in exp if i.get(k) != exp[k]]
+    if bad:
+        fails.append(dict(where, what="comparison disagrees with the documented order on %s" % bad,
+                          kind="wrong-order" if not any(isinstance(i.get(k), str) for k in bad) else "compare-failed",
+                          expected=exp, got=i))
+    return i, where, fails, want
+
+
 def run(ctx):
     out = Outcome()
     out.rule = ("pairs and triples of typed records, scheme-less records and plain locatables over present/missing/equal/less/greater "
@@ -109,36 +139,66 @@ def run(ctx):
     mo = ctx.driver.run(reqs)
     for r, m, (ka, kb, a, b, order, cs, la, lb) in zip(reqs, mo, meta):
         out.evaluations += 1
-        i = compare_impl(a, b, order, cs)
-        where = {"order": order, "contigs": cs, "a": la, "b": lb, "kinds": [ka, kb]}
+        i, where, fails, tag = eval_pair(ka, a, kb, b, order, cs, la, lb)
         if has_unmodelled(m):
             out.unmodelled += 1
         elif m != i:
             out.disagreements.append({"op": "sortkey.cmp", "request": r, "model": m, "impl": i})
-        # oracle: well-formed inputs never fail, and agree with the documented order
-        missing_contig = bool(cs) and any(x["chr"] is None or str(x["chr"]) not in cs for x in (la, lb))
-        if missing_contig:
-            if i.get("keyerr") != "ValueError":
-                out.failures.append(dict(where, what="chromosome missing from the contig list is not reported as ValueError",
-                                         kind="contig-missing", got=i))
+        out.failures += fails
+        if tag == "contig-missing":
             out.distribution["contig-missing"] += 1
             continue
-        if "keyerr" in i:
-            out.failures.append(dict(where, what="building a key failed on well-formed coordinates", kind="key-failed", got=i))
+        if tag == "key-failed":
             continue
-        want = expected_cmp(la, lb, order, cs)
-        exp = {"lt": want < 0, "le": want <= 0, "gt": want > 0, "ge": want >= 0, "eq": want == 0, "ne": want != 0, "cmp": want}
-        bad = [k for k in exp if i.get(k) != exp[k]]
-        if bad:
-            out.failures.append(dict(where, what="comparison disagrees with the documented order on %s" % bad,
-                                     kind="wrong-order" if not any(isinstance(i.get(k), str) for k in bad) else "compare-failed",
-                                     expected=exp, got=i))
+        want = tag
         out.distribution["cmp:%d" % want] += 1
         if want != 0 or ka != kb:
             out.nontrivial.add(repr((la, lb, order, cs)))
         if len(out.samples) < 4 and ka != kb:
             out.sample(where)
     return out
+
+
+def rebuild(kind, l):
+    """The object of a stored case from its kind and the components a sort order reads from it."""
+    if kind == "typed":
+        return SC.typed_record(None, l["tumor"], l["normal"], None if l["chr"] is None else str(l["chr"]), l["start"], l["stop"])
+    if kind == "untyped":
+        return SC.untyped_record(l["tumor"], l["normal"], l["chr"], l["start"], l["stop"])
+    if kind == "loc":
+        return SC.Loc(l["chr"], l["start"], l["stop"])
+    return None
+
+
+def replay_case(ctx, failure):
+    """Re-evaluate the stored failing input on the current implementation; return the list of failure dicts it
+    produces now (empty list = the property holds on that input)."""
+    need = ("a", "b", "kinds", "order", "contigs")
+    if any(k not in failure for k in need) or len(failure["kinds"]) != 2:
+        return None
+    (ka, kb), order, cs = failure["kinds"], failure["order"], list(failure["contigs"] or [])
+    a, b = rebuild(ka, failure["a"]), rebuild(kb, failure["b"])
+    if a is None or b is None:
+        return None
+    la, lb = SC.loc_json(a), SC.loc_json(b)
+    print("case: %s(%s) vs %s(%s) under %s, contigs=%s" % (ka, json.dumps(la, sort_keys=True), kb, json.dumps(lb, sort_keys=True), order, cs or "none"))
+    for name, now, then in (("a", la, failure["a"]), ("b", lb, failure["b"])):
+        if now != then:
+            print("note: rebuilt %s reads as %s on this tree (stored: %s)" % (name, json.dumps(now, sort_keys=True), json.dumps(then, sort_keys=True)))
+    i, where, fails, tag = eval_pair(ka, a, kb, b, order, cs, la, lb)
+    print("implementation: %s" % json.dumps(i, sort_keys=True))
+    if isinstance(tag, int):
+        print("documented order: cmp=%d" % tag)
+    else:
+        print("oracle: %s" % ("a chromosome is not in the contig list: ValueError expected" if tag == "contig-missing" else "building a key must not fail"))
+    try:
+        m = ctx.driver.run([{"op": "sortkey.cmp", "order": order, "contigs": cs, "a": la, "b": lb}])[0]
+        print("model: %s%s" % (json.dumps(m, sort_keys=True), "" if m == i or has_unmodelled(m) else "   (differs from the implementation)"))
+    except Exception as e:  # noqa
+        print("model: not available (%s)" % str(e)[:200])
+    for f in fails:
+        print("oracle fails: %s" % f["what"])
+    return fails
 
 
 def search(ctx):
